@@ -256,6 +256,13 @@ def _gen_op(rng, kind, mt, rows, wild=True):
             return ["sample_perm", perm, rng.choice([0, pop, rng.randint(1, pop)]), ml]
         idx = [rng.choice([0, pop - 1, rng.randrange(pop)]) for _ in range(rng.randint(1, 6))]
         return ["sample_idx", idx, ml]
+    if kind == "take_seqs":
+        # a selection in an order that is not the current one
+        sel = rng.sample(names, rng.randint(1, nr))
+        if len(sel) > 1 and sel == [x for x in names if x in sel]:
+            sel.reverse()
+        neg = rng.random() < 0.2 and len(sel) < nr
+        return ["take_seqs", sel, neg]
     if kind == "to_type:T":
         return ["to_type", True]
     if kind == "to_type:F":
@@ -278,6 +285,7 @@ PLANS = [
     ("sample", ["?slice", "?rc", "sample", "?*"]),
     ("to_type", ["slice", "?rc", "to_type:T", "*", "to_type:F", "*"]),
     ("to_type", ["?slice", "rc", "to_type:F", "*", "to_type:T", "*"]),
+    ("to_type", ["take_seqs", "?slice", "to_type:T", "?*", "to_type:F", "?*"]),
 ]
 
 
